@@ -43,6 +43,7 @@ ASSUMPTIONS = [
     'complex coefficient data: only eig handles it on this tree (complex l, Q); qr, qr_full, cholesky, lu, eigh, svd raise UFuncTypeError (float work arrays, formulas written with transposes): documented in notes/C08.md, not asserted',
     'base-point classes for qr, qr_full, svd, cholesky, lu*, eigh:distinct, eig (2/9 of the cases each): neighbouring base points per direction A_0[p] = A_0[0] + h E_p, h in {1e-6, 1e-7, 1e-9} (different but numpy.allclose), and the whole matrix polynomial scaled by 2^-k, k in {30,40,50,60} (all entries < 1e-8); every predicate is relative to the magnitude of the data (zeroth coefficients relative to max|ref|)',
     'tiny-magnitude class: the documented absolute thresholds qr(epsilon=1e-14), eigh/svd(epsilon=1e-8) are passed scaled by 2^-k; the factors of 2^-k B must be the exactly scaled factors of B to 1e-10 (metamorphic; not for eig, whose LAPACK eigenpair order and column signs are not scale-equivariant); qr with M >= N: k = 30 only while KF-qr-epsilon-ignored is open',
+    'default-eps class (2/11 of the qr, eigh:distinct, svd cases): small data WITHOUT the epsilon argument at scales where the documented default still sees full rank / distinct values: qr whole matrix or ONE column times 2^-k, k in 30..38 (pivots 1e-12..9e-9 vs default 1e-14); eigh / svd times 2^-k, k in {16, 20, 22} (gaps >= 7e-8 vs default 1e-8); same relative predicates and scaling relation (column case: Q equal, R column-wise scaled, compared column by column)',
     'NumPy, SciPy/LAPACK are trusted',
 ]
 
@@ -417,7 +418,7 @@ def with_layout(draw, strat):
     eligible = (not np.iscomplexobj(case['A'])) and (
         (op != 'eig' and cls in (None, 'distinct')) or (op == 'eig' and cls in ('real', 'complex') and case['A'].shape[0] <= 2))
     if eligible:
-        v = draw(st.sampled_from([None] * 5 + ['neighbour', 'neighbour', 'tiny', 'tiny']))
+        v = draw(st.sampled_from([None] * 5 + ['neighbour', 'neighbour', 'tiny', 'tiny', 'default-eps', 'default-eps']))
         A = case['A']
         D, P, M, N = A.shape
         if v == 'neighbour' and P > 1:
@@ -440,6 +441,25 @@ def with_layout(draw, strat):
             case['A'] = A * 2.0 ** -k
             case['tiny_k'] = k
             case['base'] = 'tiny,2^-%d' % k
+        elif v == 'default-eps' and op in EPSILON:
+            # small data handled with the DEFAULT threshold (no epsilon argument): scales at which the documented default
+            # (qr 1e-14, eigh / svd 1e-8) still sees full rank / distinct values with a margin of >= 100 resp. >= 7
+            if op == 'qr':
+                k = draw(st.sampled_from([30, 32, 34, 36, 38]))          # pivots 0.3..9 * 2^-k in [1e-12, 9e-9]
+                if draw(st.booleans()):
+                    j = draw(st.integers(0, N - 1))                        # ONE tiny column in an O(1) matrix
+                    A = A.copy()
+                    A[..., j] *= 2.0 ** -k
+                    case['A'] = A
+                    case['col_k'] = [j, k]
+                    case['base'] = 'default-eps,column*2^-%d' % k
+                    return case
+            else:
+                k = draw(st.sampled_from([16, 20, 22]))                  # gaps >= 0.3 * 2^-22 = 7e-8 > 1e-8
+            case['A'] = A * 2.0 ** -k
+            case['tiny_k'] = k
+            case['default_eps'] = True
+            case['base'] = 'default-eps,2^-%d' % k
     return case
 
 
@@ -449,7 +469,7 @@ EPSILON = {'qr': 1e-14, 'eigh': 1e-8, 'svd': 1e-8}
 
 def _eps_kwargs(case):
     k = case.get('tiny_k')
-    if k and case['op'] in EPSILON:
+    if k and case['op'] in EPSILON and not case.get('default_eps'):
         return {'epsilon': EPSILON[case['op']] * 2.0 ** -k}
     return {}
 
@@ -476,6 +496,26 @@ def _scaling(case, ret, fglobal, names, factors, stats):
     (powers of two commute with every floating point operation involved): factor_i(A) = factors[i] * factor_i(B).
     Both sides come from the code under test (metamorphic relation); the predicates above validate the A side."""
     k = case.get('tiny_k')
+    col = case.get('col_k')
+    if col:
+        # qr with ONE column scaled by 2^-k: A = B diag(c_j) => Q(A) = Q(B), R(A) = R(B) diag(c_j) exactly
+        j, k = col
+        Bbig = case['A'].copy()
+        Bbig[..., j] *= 2.0 ** k
+        cvec = np.ones(case['A'].shape[-1])
+        cvec[j] = 2.0 ** -k
+        big = guard(fglobal, UTPM(Bbig))
+        for r, b, nm, f in zip(ret, big, names, (1.0, cvec)):
+            rd, bd = _utpm(r, nm), _utpm(b, nm) * f
+            if rd.shape != bd.shape:
+                raise Violation('qr column scaling: %s has shape %s versus %s' % (nm, rd.shape, bd.shape))
+            D = rd.shape[0]
+            for jj in range(rd.shape[-1]) if nm == 'R' else [slice(None)]:       # R column by column: own magnitude
+                a_, b_ = rd[..., jj], bd[..., jj]
+                sc = np.maximum.accumulate(np.abs(b_).reshape(D, -1).max(axis=1))
+                R.eq_check(a_, b_, np.maximum(sc, 1e-300), 1e-10, stats,
+                           'qr: %s (column %s) of B diag(.., 2^-%d, ..) versus the column-scaled %s of B' % (nm, jj, k, nm))
+        return
     if not k:
         return
     big = guard(fglobal, UTPM(case['A'] * 2.0 ** k))
